@@ -673,7 +673,7 @@ def unit_c25_runs(ctx):
     """C25 reads the crash observations (X PANIC lines -> FAIL C25) of the stateful runs."""
     lines = []
     inputs = None
-    for u in (unit_gw, unit_client, unit_gw_multi):
+    for u in (unit_gw, unit_client, unit_gw_multi, unit_e2e):
         r = u(ctx)
         if r.get("error"):
             return r
@@ -690,7 +690,7 @@ def unit_c25_runs(ctx):
 
 PROPS["C25"] = {
     "theorems": ["C25_gateway_never_crashes", "C25_client_never_crashes"],
-    "drivers": ["drv_gw.test", "drv_client.test", "skeleton", "drv_codec", "drv_match"],
+    "drivers": ["drv_gw.test", "drv_client.test", "drv_e2e.test", "skeleton", "drv_codec", "drv_match"],
     "units": [Unit("stateful-runs", unit_c25_runs), Unit("panic-site-census", unit_skeleton(r"^PANIC ")),
               Unit("drv_codec", unit_codec), Unit("drv_match", unit_match)],
     "mismatch_kinds": [r"PANIC", r"MISSING-", r"SKELETON", r"decode class"],
@@ -804,6 +804,9 @@ PROPS["C16"] = {
     "rule": E2E_RULE + "; " + GW_RULE,
     "assumptions": E2E_ASSUME + GW_ASSUME,
 }
+
+PROPS["C25"]["rule"] += ("; end-to-end runs of the real client with the real gateway (" + E2E_RULE + "), one history in four with every "
+                         "API call over the synchronous link: the schedule in which the peer's reply is handled before the caller continues")
 
 
 # ------------------------------------------------------------------ directed search after a broken tie
